@@ -185,6 +185,8 @@ def gen_class(rng, name, refs, feats, leaf=False, root=False):
             # a QName-typed element (optional or list): the value is written with a generated prefix
             md["type"] = "Element"
             if "list" in feats and rng.random() < 0.5:
+                if "wrapper" in feats and rng.random() < 0.4:
+                    md["wrapper"] = "wrap" + n   # the prefix of an item is declared below the wrapper element
                 flds.append({"name": n, "type": {"list": "qname"}, "metadata": md, "default": {"factory": "list"}})
             else:
                 flds.append({"name": n, "type": {"opt": "qname"}, "metadata": md, "default": {"value": None}})
